@@ -33,7 +33,7 @@ func init() {
 		Rule: "cases: (type, value, options, addressability): types are the hand-written named pool (value/pointer embedding, nested embedding, tags at every position) and random reflect.StructOf types (1-5 fields of scalar, pointer, slice, map, interface, array, []byte, named and anonymous struct kinds, nested to depth 3, optionally embedding a named type by value or pointer at a random position, tags name/omitempty/-/none); values zero, fully populated and random (nil pointers, nil and empty slices/maps, interfaces holding scalars, structs, pointers, nil); " +
 			"options from the lattice UseTags x KeyExact x NestEmbed x OmitNil x OmitEmpty x CreateKey x FullTypePath x BytesAs x Indent x Sort; the value is passed as T and as *T and inside []T / map[string]T. " +
 			"Every encoder (oj.JSON tight and indented, oj.Marshal, oj.Write, oj.Writer.MustJSON, sen.String tight and indented, sen.Bytes, pretty.JSON, pretty.SEN, alt.Decompose) must produce a text that parses and a tree that matches the reference encoder's; with the Go-compatible options the reference itself must match encoding/json. " +
-			"non-trivial: a struct with at least two members or one nested container; distinct by digest of (type, value, options)",
+			"the hook-type holder is also encoded as a member held by value and as a slice element of an addressable struct. non-trivial: a struct with at least two members or one nested container; distinct by digest of (type, value, options)",
 		Assumptions: []string{
 			"the reference encoder (encref) is written from the ojg.Options comments and encoding/json's documented rules; where the comments can be read two ways the reference accepts both (nil slice/map as null or empty; omission of nil-or-empty containers under OmitNil; omission of zero structs, of non-nil pointers to empty values and of objects whose members were all omitted under OmitEmpty; an untagged field's key under UseTags follows KeyExact or is the exact name)",
 			"field names of at most three letters have lower-case tails; key conflicts between embedded and outer fields, tags on embedded fields, non-ASCII field names, time.Time, channels, funcs, complex and non-string map keys are not generated",
